@@ -845,8 +845,9 @@ pub fn sql_expr(e: &E, min: u8, col: &dyn Fn(usize) -> String) -> String {
             "{} {}BETWEEN {} AND {}",
             sql_expr(a, 5, col),
             if *neg { "NOT " } else { "" },
-            sql_expr(lo, 5, col),
-            sql_expr(hi, 5, col)
+            // minimal parentheses: a bound is read with binding power 4, it may be a comparison
+            sql_expr(lo, if matches!(**lo, E::Cmp(..)) { 4 } else { 5 }, col),
+            sql_expr(hi, if matches!(**hi, E::Cmp(..)) { 4 } else { 5 }, col)
         ),
         E::InList(neg, a, xs) => format!(
             "{} {}IN ({})",
@@ -1024,6 +1025,18 @@ pub fn has_derived_where(f: &From) -> bool {
     }
 }
 
+/// The alias of the k-th operand of FROM.  Identifiers may hold non-ASCII letters, underscores, digits and both cases
+/// (and are case sensitive): the aliases go through these forms.
+pub fn alias(k: usize) -> String {
+    match k % 5 {
+        0 => format!("r{}", k),
+        1 => format!("Ré{}", k),
+        2 => format!("_r{}", k),
+        3 => format!("r_é{}x", k),
+        _ => format!("R{}", k),
+    }
+}
+
 /// column naming of a FROM tree: column i of the joined row is `r<k>.c<j>` (k-th leaf, its j-th column)
 pub fn col_namer(f: &From, db: &[Table]) -> impl Fn(usize) -> String + 'static {
     let mut ls = Vec::new();
@@ -1032,16 +1045,16 @@ pub fn col_namer(f: &From, db: &[Table]) -> impl Fn(usize) -> String + 'static {
     move |i: usize| -> String {
         for (k, (_, start)) in ls.iter().enumerate().rev() {
             if i >= *start {
-                return format!("r{}.c{}", k, i - start);
+                return format!("{}.c{}", alias(k), i - start);
             }
         }
-        format!("r0.c{}", i)
+        format!("{}.c{}", alias(0), i)
     }
 }
 
 /// `(SELECT e0 AS c0, … FROM inner [WHERE w]) AS r<k>`; the inner query has its own scope (aliases r0, r1, … again)
 pub fn sql_derived(inner: &From, w: &Option<E>, items: &[E], k: usize, db: &[Table]) -> String {
-    format!("({}) AS r{}", sql_derived_body(inner, w, items, db), k)
+    format!("({}) AS {}", sql_derived_body(inner, w, items, db), alias(k))
 }
 
 /// `SELECT e0 AS c0, … FROM inner [WHERE w]`; the query has its own scope (aliases r0, r1, … again)
@@ -1064,7 +1077,7 @@ pub type Ctes = Vec<(String, String)>;
 fn sql_from(f: &From, db: &[Table], next: &mut usize, col: &dyn Fn(usize) -> String, mut ctes: Option<&mut Ctes>) -> String {
     match f {
         From::Table(t) => {
-            let s = format!("t{} AS r{}", t, *next);
+            let s = format!("t{} AS {}", t, alias(*next));
             *next += 1;
             s
         }
@@ -1084,7 +1097,7 @@ fn sql_from(f: &From, db: &[Table], next: &mut usize, col: &dyn Fn(usize) -> Str
                             n
                         }
                     };
-                    format!("{} AS r{}", name, *next)
+                    format!("{} AS {}", name, alias(*next))
                 }
             };
             *next += 1;
@@ -2195,8 +2208,31 @@ impl<'a> Gen<'a> {
             6 => {
                 let neg = self.rng.chance(1, 2);
                 let (a, lo, t) = self.same_type_pair(tys, p, depth.min(1));
+                let bcols = self.cols_of(tys, &[Ty::Bool]);
+                let (a, lo, t) = if !bcols.is_empty() && self.rng.chance(1, 3) {
+                    (E::Col(*self.rng.pick(&bcols)), self.lit(Ty::Bool, p), "bool")
+                } else {
+                    (a, lo, t)
+                };
+                let cmp_bound = |g: &mut Self| -> E {
+                    let op = *g.rng.pick(&CMP_OPS);
+                    let a = g.int_expr(tys, p, 0);
+                    let b = g.int_expr(tys, p, 0);
+                    E::Cmp(op, Box::new(a), Box::new(b))
+                };
+                // (boolean bounds that are comparisons, written without parentheses: `x BETWEEN a AND b = c`)
+                let lo = if t == "bool" && self.rng.chance(1, 3) {
+                    self.tag("op.btw.bound-is-comparison");
+                    cmp_bound(self)
+                } else {
+                    lo
+                };
                 let hi = match t {
                     "text" => self.text_expr(tys, p),
+                    "bool" if self.rng.chance(1, 2) => {
+                        self.tag("op.btw.bound-is-comparison");
+                        cmp_bound(self)
+                    }
                     "bool" => self.lit(Ty::Bool, p),
                     "dbl" => self.dbl_operand(tys, p),
                     _ => self.int_expr(tys, p, depth.min(1)),
